@@ -30,10 +30,10 @@ var kindNames = []string{"bitflip", "swapped", "plus-minus-d", "three-way", "non
 
 func genC03(c *Ctx) {
 	maxExh := 5
-	sampled := []int{8, 9, 65, 129}
+	sampled := []int{8, 9, 65, 129, 260}
 	if c.thorough() {
 		maxExh = 7
-		sampled = []int{8, 9, 15, 16, 17, 33, 64, 65, 129, 257}
+		sampled = []int{8, 9, 15, 16, 17, 33, 64, 65, 129, 257, 260, 515, 1030}
 	}
 	h := crypto.NewExpandMsgXOFKMAC128("batch")
 	msg := []byte("batch message")
@@ -259,6 +259,16 @@ func genC03(c *Ctx) {
 			if n > 128 {
 				run(n, []int{127, 128}, kSwapped)
 				run(n, []int{0, 64, 128}, kPolyCancel)
+			}
+			if n > 258 {
+				// positions congruent modulo 256 (an index carried in a byte makes their coefficients equal), and modulo 512
+				run(n, []int{2, 258}, kSwapped)
+				run(n, []int{0, 256}, kPlusMinusD)
+				run(n, []int{3, 259}, kSwapped)
+			}
+			if n > 514 {
+				run(n, []int{1, 513}, kSwapped)
+				run(n, []int{2, 258, 514}, kThreeWay)
 			}
 			run(n, nil, kBitflip)
 			if !c.thorough() {
